@@ -140,7 +140,10 @@ pub fn sum_err(e: &MqttError) -> Value {
                 p.push(Prop { id: 0x1c, v: PV::Str(s.as_bytes().to_vec()) });
             }
             let sei = d.session_expiry_interval().as_secs();
-            p.push(Prop { id: 0x11, v: PV::U32(sei as u32) });
+            if sei != 0 {
+                // absent reads as 0 (the accessor has no Option), so 0 is left out on both sides
+                p.push(Prop { id: 0x11, v: PV::U32(sei as u32) });
+            }
             res_rec("err", "Disconnected", d.reason() as u8 as u32, &mqtt::content_digest(&p, b"", b""))
         }
         MqttError::QuotaExceeded(_) => res_rec("err", "QuotaExceeded", 0, ""),
